@@ -21,11 +21,16 @@ vars == <<ty, kind, code, text, hl, grow>>
 ASSUME TablesWellFormed
 ASSUME ConstsResolvable
 
-Window == 0..300 \cup 4090..4100 \cup 20290..20294 \cup 26940..26950 \cup 32760..32775
-          \cup 49150..49155 \cup 65270..65290 \cup 65525..65535 \cup {257 * k : k \in 2..254}
+InWindow(c) == \/ c \in 0..300 \/ c \in 4090..4100 \/ c \in 20290..20294 \/ c \in 26940..26950
+               \/ c \in 32760..32775 \/ c \in 49150..49155 \/ c \in 65270..65290 \/ c \in 65525..65535
+               \/ c % 257 = 0
 
-Codes(id) == LET d == DescOf(id) IN
-  (IF d.max <= 4095 \/ id \in FullTypes THEN 0..d.max ELSE Window) \ d.unsure
+InCodes(id, c) == LET T == TI(id) IN
+  c <= T.max /\ c \notin T.unsure /\ (T.max <= 4095 \/ id \in FullTypes \/ InWindow(c))
+\* the codes are enumerated in chunks of 256 (one seed state each) so that
+\* TLC's workers share the work
+ChunkCodes(id, k) == {c \in (k * 256)..(k * 256 + 255) : InCodes(id, c)}
+ChunkIds(id) == {k \in 0..(TI(id).max \div 256) : ChunkCodes(id, k) # {}}
 
 ReadingTypes == {id \in TypeIds : Reads(TI(id))}
 
@@ -52,7 +57,7 @@ Fixed(id) == LET T == TI(id) U == TD(id) p == T.prefix IN
 TailLimit(id) == IF id \in TailTypes THEN MaxTail ELSE SmallTail
 
 Init ==
-  \/ /\ kind = "code" /\ ty \in TypeIds /\ code \in Codes(ty)
+  \/ /\ kind = "chunk" /\ ty \in TypeIds /\ code \in ChunkIds(ty)
      /\ text = <<>> /\ hl = 0 /\ grow = FALSE
   \/ /\ kind = "const" /\ ty = "const" /\ code = 0
      /\ text \in AllConsts /\ hl = 0 /\ grow = FALSE
@@ -64,7 +69,12 @@ Extend == /\ kind = "text" /\ grow /\ Len(text) - hl < TailLimit(ty)
           /\ \E ch \in Alphabet : text' = Append(text, ch)
           /\ UNCHANGED <<ty, kind, code, hl, grow>>
 
-Next == Extend
+Expand == /\ kind = "chunk"
+          /\ \E c \in ChunkCodes(ty, code) : code' = c
+          /\ kind' = "code"
+          /\ UNCHANGED <<ty, text, hl, grow>>
+
+Next == Extend \/ Expand
 Spec == Init /\ [][Next]_vars
 
 --------------------------------------------------------------------------
@@ -82,14 +92,7 @@ DevRows == kind = "code" =>
 
 --------------------------------------------------------------------------
 (* S->I cases *)
-Res(v) == IF v = None THEN [err |-> TRUE] ELSE [ok |-> v]
-MnJ(T, c) == IF HasName(T, c) THEN T.nm[c] ELSE <<>>
-
-\* one table per single deviation (the tables depend on two of them)
-TabBy == [d \in Dev |-> [id \in TypeIds |-> MkDv(DescOf(id), {d})]]
-TT(id, dv) == IF dv = {} THEN TabIdeal[id] ELSE TabBy[CHOOSE d \in dv : TRUE][id]
-
-Empty == [x \in {} |-> 0]
+Empty == <<>>
 Opt(cond, rec) == IF cond THEN rec ELSE Empty
 
 CodeExp(id, c, dv) ==
@@ -99,7 +102,9 @@ CodeExp(id, c, dv) ==
   @@ Opt(st # "newcode", [display |-> Display(T, c)])
   @@ Opt(macro \/ st = "rcode", [mn |-> MnJ(T, c)])
   @@ Opt(HasToken(T), [token |-> Token(T, c)])
-  @@ Opt(HasSerde(T), [ser |-> SerHuman(T, c)])
+  @@ Opt(HasSerde(T), [ser |-> SerHuman(T, c),
+                       \* Deserialize from a JSON number: c, and c + max + 1 (never wrapped)
+                       denum |-> <<Res(DeNum(T, c)), Res(DeNum(T, c + T.max + 1))>>])
   @@ Opt(macro, [rt |->
         Opt(st # "withdec", [display |-> Res(FromStr(T, Display(T, c), dv))])
         @@ Opt(HasToken(T), [token |-> Res(FromStr(T, Token(T, c), dv))])
@@ -118,11 +123,11 @@ TextExp(id, t, dv) ==
   @@ Opt(T.style # "rcode", [mn |-> Res(FromMn(T, t))])
   @@ Opt(HasSerde(T) /\ T.id # "Rcode", [de |-> Res(DeStr(T, t, dv))])
 
-DevMap(F(_)) == [d \in {x \in Dev : F({x}) # F({})} |-> F({d})]
+DevMap(F(_)) == PairsToFun({<<d, F({d})>> : d \in {x \in Dev : F({x}) # F({})}})
 
 EmitCase(inp, F(_)) ==
   LET dm == DevMap(F) base == [in |-> inp, exp |-> F({})]
-  IN PrintT("CASE " \o ToJson(IF DOMAIN dm = {} THEN base ELSE base @@ [dev |-> dm]))
+  IN PrintT("CASE " \o ToJson(IF dm = <<>> THEN base ELSE base @@ [dev |-> dm]))
 
 Emit ==
   Emitting =>
@@ -130,6 +135,7 @@ Emit ==
                           IN EmitCase([k |-> "code", ty |-> ty, c |-> code], F)
       [] kind = "text" -> LET F(dv) == TextExp(ty, text, dv)
                           IN EmitCase([k |-> "text", ty |-> ty, t |-> text], F)
+      [] kind = "chunk" -> TRUE
       [] kind = "const" -> LET k == text
                            IN PrintT("CASE " \o ToJson([in |-> [k |-> "const", ty |-> k[1], name |-> k[2]],
                                                           exp |-> [ok |-> CodeOfName(k[3], k[4])]]))
